@@ -131,6 +131,12 @@ def run(cmd, cwd=None, timeout=3600, env=None):
     return p.returncode, p.stdout.decode(errors='replace')
 
 
+def run2(cmd, cwd=None, timeout=3600, env=None, stdin=None):
+    """like run() but stdout and stderr separately (text)"""
+    p = subprocess.run(cmd, cwd=cwd, stdout=subprocess.PIPE, stderr=subprocess.PIPE, timeout=timeout, env=env, input=stdin)
+    return p.returncode, p.stdout.decode(errors='replace'), p.stderr.decode(errors='replace')
+
+
 def strip_comments(src: str) -> str:
     # nested block comments are rare in our sources; remove /- ... -/ and -- ...
     src = re.sub(r'/-.*?-/', '', src, flags=re.S)
